@@ -40,7 +40,15 @@ def _fit_real(c, lo, hi, lo_strict, nonzero):
     return float(v)
 
 
+def _rn(e, name, kind):
+    """harness symbols of a SECOND invocation in the same path (history check, contracts.verify_contract) are renamed:
+    e.sym_rename = {'real': suffix, 'int': suffix} -- an empty suffix keeps the symbol of the first invocation"""
+    rn = getattr(e, "sym_rename", None)
+    return name + rn.get(kind, "") if rn else name
+
+
 def integer(e, name, lo=None, hi=None):
+    name = _rn(e, name, "int")
     c = _conc(e, name)
     if c is not None:
         return _fit_int(c, lo, hi)
@@ -53,6 +61,7 @@ def integer(e, name, lo=None, hi=None):
 
 
 def real(e, name, lo=None, hi=None, lo_strict=False, nonzero=False):
+    name = _rn(e, name, "real")
     c = _conc(e, name)
     if c is not None:
         return _fit_real(c, lo, hi, lo_strict, nonzero)
@@ -69,6 +78,7 @@ def real(e, name, lo=None, hi=None, lo_strict=False, nonzero=False):
 def real0d(e, name, nonzero=False):
     """symbolic real as a 0-d array (use where the code multiplies the scalar by a python complex constant: a float
     subclass would be consumed natively by complex.__mul__)"""
+    name = _rn(e, name, "real")
     c = _conc(e, name)
     if c is not None:
         return _fit_real(c, None, None, False, nonzero)
@@ -112,6 +122,7 @@ def matrix(e, name, n, m):
 def array(e, name, shape, kind="real", constraint=None):
     """uninterpreted array (arbitrary contents).  constraint(elem) -> bool term states `forall idx. P(a[idx])`:
     the instance for every index that is ever read is added to the path condition."""
+    name = _rn(engine.cur() if e is None else e, name, "real")
     a = values.fresh_array(name, shape, kind)
     if constraint is None:
         return a
